@@ -474,9 +474,11 @@ def explore(part, nparts, maxruns, rnd):
         plans_f = []
         for (st, curidx, others, opk) in choices:
             for o in others:
-                (plans_c if curidx >= 100 else plans_w).append({st: o})
-                if opk.startswith("fld_") and o > 0:
-                    plans_f.append({st: o})
+                if opk.startswith("fld_"):
+                    if o > 0:
+                        plans_f.append({st: o})      # switches at counter accesses: explored by the directed passes below
+                else:
+                    (plans_c if curidx >= 100 else plans_w).append({st: o})
         rnd.shuffle(plans_c)
         rnd.shuffle(plans_w)
         # (switches at UNPROTECTED counter accesses come first and are never sampled away: correct code has none
